@@ -37,7 +37,8 @@ class Func:
         return [x.arg for x in a.posonlyargs + a.args] + ([a.vararg.arg] if a.vararg else []) + [x.arg for x in a.kwonlyargs] + ([a.kwarg.arg] if a.kwarg else [])
 
     def site(self, node: ast.AST | None = None) -> str:
-        line = getattr(node, 'lineno', self.node.lineno) if node is not None else self.node.lineno
+        n = node if node is not None and hasattr(node, 'lineno') else self.node
+        line = getattr(n, 'orig_lineno', n.lineno)
         return f'{self.module.relpath}:{line} {self.qualname}'
 
     def decorator_info(self) -> list[tuple[str, dict]]:
@@ -71,6 +72,7 @@ class Module:
             self.inlined = inline_module(self.tree, name, repo.baseline.get(name, set()), repo.ext_refs)
             if self.inlined:
                 normalise(self.tree)
+                _renumber(self.tree)
         self.imports: dict[str, str] = {}
         self.funcs: dict[str, Func] = {}
         self.classes: dict[str, ast.ClassDef] = {}
@@ -145,6 +147,28 @@ class Module:
 
     def __repr__(self):
         return f'<Module {self.name}>'
+
+
+def _renumber(tree: ast.AST) -> None:
+    """After helper expansion the statements of a function no longer appear in line order (expanded statements keep the lines of the
+    helper).  Rules compare positions by line number, so every node gets a line number that follows the program order of the
+    expanded tree; the original line is kept in `orig_lineno` and is what reports show."""
+    counter = [0]
+
+    def visit(n):
+        if hasattr(n, 'lineno'):
+            if not hasattr(n, 'orig_lineno'):
+                n.orig_lineno = n.lineno
+            if isinstance(n, (ast.stmt, ast.ExceptHandler)):
+                counter[0] += 1
+            n.lineno = max(counter[0], 1)
+        last = getattr(n, 'lineno', counter[0])
+        for c in ast.iter_child_nodes(n):
+            last = max(last, visit(c))
+        if hasattr(n, 'end_lineno'):
+            n.end_lineno = last
+        return last
+    visit(tree)
 
 
 def normalise(tree: ast.AST) -> None:
